@@ -17,32 +17,31 @@ Lattice explorer on the real code:
 * the Lambert entry points of the adaptive filter (``AdaptiveFilter._calculateDeltaV`` /
   ``_generateHypothesisManeuvers``) on a real filter object.
 
-Tolerances (derived; v_c = sqrt(mu/a) is the velocity scale of the arc, a its semi-major axis)
+Tolerances (derived; v_c = sqrt(mu/a) is the velocity scale of the arc, a its semi-major axis; envelopes measured on the
+thorough lattice for seeds 0, 1, 7)
 
 * universal variables: the bisection stops when the time of flight is matched to ``_ATOL`` = 1.48e-8 s (or after 100
   halvings of an interval of 8 pi^2, i.e. at double resolution).  A time-of-flight error dt moves the end velocities by
-  about v_c dt / tof * O(1); the shortest arc of the lattice is 0.005 P, so <= 1.5e-8 / (0.005 P) * v_c ~ 6e-10 v_c.
-  Measured worst over the thorough lattice 6.5e-10 v_c (velocities) and 5e-11 a (arrival position).  Tolerances
-  3e-8 v_c and 3e-9 a: >= 40x the envelope.
+  about v_c dt / tof; the shortest arc of the lattice is 0.005 P, so <= 1.5e-8 / (0.005 P) v_c ~ 6e-10 v_c.  Measured
+  worst 1.3e-9 v_c (end velocities), 7.5e-11 a (arrival position), 1.8e-10 v_c (arrival velocity).  Tolerances
+  5e-8 v_c, 3e-9 a, 1e-8 v_c (>= 38x).
 * Battin: the successive-substitution loop stops when x moves by < ``_ATOL``; the remaining error of x is that step
-  times rho/(1-rho) for a contraction rate rho that approaches 1 towards a full revolution.  Measured worst over the
-  thorough lattice: 5.4e-8 v_c (velocities), 2.7e-6 a (arrival position after up to 0.98 P of propagation).
-  Tolerances 3e-6 v_c and 1.5e-4 a (55x).  Every one-line change seeded during development moved the result by
-  >= 1e-3 v_c (>= 300x the tolerance) on many arcs.
-* Gauss (only arcs <= 30 deg, where Vallado recommends it and the series converges): measured 9e-10 v_c; tolerance
-  3e-7 v_c, 1e-6 a.
-* arrival velocity (propagated velocity vs the returned final velocity): same tolerance as the velocities (x2, both
-  ends contribute).
-* ``radarObs2eciPosition``: rotations and one trig round trip; rounding ~1e-15 * (range + site radius) * few.
-  Measured worst 4e-11 km (round trip) and 6e-9 km (own FK5 model, dominated by the 1e-13-level agreement of the two
-  reduction matrices times the 5e4 km lever).  Tolerance 1e-6 km (DESIGN value; a 1e-9 rad angle defect at 1000 km
-  range is 1e-6 km).
-* IOD: position as above.  Velocity: the solver is given ``(jd2 - jd1) * 86400`` as time of flight, and a Julian date
-  near 2.46e6 days is stored in a double of resolution 4.66e-10 day = 4.0e-5 s; the difference of two rounded dates
-  is off by up to one resolution step dt_jd.  A time-of-flight error shifts the Lambert end velocity by about
-  (v_c / tof) dt_jd (measured factor <= 1.1).  Tolerance 4 (v_c / tof) dt_jd + solver tolerance:  2.3e-6 km/s at the
-  shortest separation (5 % of a LEO period), 4 orders below the effect of a 1 s slip or a wrong observation
-  (>= 1e-2 km/s).
+  times rho/(1-rho) for a contraction rate rho that approaches 1 towards a full revolution.  Measured worst 6.6e-8 v_c
+  (end velocities), 3.4e-6 a (arrival position after up to 0.98 P of propagation, which amplifies a velocity error
+  along-track), 1.5e-5 v_c (arrival velocity).  Tolerances 3e-6 v_c, 1.5e-4 a, 6e-4 v_c (>= 40x).  The smallest
+  one-line change seeded during development (8th continued-fraction coefficient) still failed 48 arcs of the quick
+  lattice; all others moved thousands of arcs by >= 1e-3 v_c.
+* Gauss (only arcs <= 30 deg, where the method is meant to be used and its iteration converges): measured 1.8e-9 v_c,
+  3.8e-9 a, 2.9e-9 v_c; tolerances 1e-7 v_c, 2e-7 a, 2e-7 v_c (>= 50x).
+* ``radarObs2eciPosition``: see ``_tol_radar`` (relative to the range: the first-order polar-motion matrix is not
+  exactly orthonormal; near the poles the site longitude recovered from the site's ECI state is ill-conditioned).
+* IOD: position 5e-6 km (round trip at ranges <= 5e4 km; measured 7e-11 km).  Velocity: the solver is given
+  ``(jd2 - jd1) * 86400`` as time of flight, and a Julian date near 2.46e6 days is a double of resolution
+  2^-31 day = 4.0e-5 s, so the difference of two rounded dates is off by up to one step dt_jd.  A time-of-flight error
+  shifts the Lambert end velocity by about (v_c / tof) dt_jd (measured: <= 0.5 of that).  Tolerance
+  8 (v_c / tof) dt_jd + solver tolerance + 1e-9 km/s: 8e-6 km/s at the shortest separation (5 % of a LEO period),
+  3 orders below the effect of a 1 s slip or of a wrong observation (>= 1e-2 km/s).
+* MMAE: the solver tolerances (measured: universal 1.1e-10 v_c / 1.6e-11 a, Battin 1.1e-9 v_c / 1.5e-8 a).
 """
 from __future__ import annotations
 
@@ -114,6 +113,8 @@ def _tol_radar(rng, lat, reference):
     an angle defect of 1e-9 rad is still 10x / 3x above them."""
     rel = 1e-10 + (4e-12 / max(math.cos(lat), 1e-3) if reference else 0.0)
     return 1e-9 + rel * rng
+
+
 EXCLUDE_DEG = 5.0
 GAUSS_MAX_DEG = 30.0
 
@@ -206,7 +207,7 @@ def items(tier, seed):
     out.append(("helpers", tier, seed))
     out.append(("direction", tier, seed))
     sites = _sites(tier, seed)
-    ndates = 2 if tier == "quick" else 6
+    ndates = 2 if tier == "quick" else 4
     for k in range(ndates):
         for si in range(len(sites)):
             out.append(("radar", tier, seed, k, si))
@@ -444,7 +445,7 @@ def _radar_case(res, sub, t, sensor_eci, site_desc, az, el, rng, fk5, lat, lon, 
     tgt = np.asarray(sensor_eci[:3]) + fk5.ecef2eci_mat @ np.asarray(rel_ecef)
     case = {"t": t.isoformat(), "site": site_desc, "az": az, "el": el, "range": rng}
     # (a) explicit observation (as loaded from a database row) against the own geometry
-    for kind in ("radar", "adv_radar"):
+    for kind in (("radar", "adv_radar")[int(round(az + el + rng)) % 2],):  # both labels take the same path; alternate
         obs = Observation(jd, 10001, 20001, kind, np.asarray(sensor_eci, dtype=float), _radar_measurement(),
                           azimuth_rad=az * DEG, elevation_rad=el * DEG, range_km=rng, range_rate_km_p_sec=0.0)
         got = np.asarray(radarObs2eciPosition(obs), dtype=float)
@@ -859,7 +860,6 @@ def _run_mmae(res, item):
             post[3:] += np.array(burn) * (vsc / 7.5)
             rr, _vv = ref.propagate(tuple(post[:3]), tuple(post[3:]), now - t_true)
             tgt = np.array(rr)
-            # transfer of the true hypothesis must stay clear of the excluded neighbourhoods
             af = _adaptive_filter(solver, np.concatenate([tgt, post[3:]]))
             af.time = float(now)
             af.num_models = len(times) + 1
@@ -877,7 +877,7 @@ def _run_mmae(res, item):
             res.case("mmae/no_manoeuvre_row", case, bool(np.all(dv[0] == 0.0)), signature=f"C20/mmae/{solver}/row0", observed=dv[0],
                      expected=[0, 0, 0], item=item)
             e_true = _maxabs(dv[k_true + 1], post[3:] - pre[k_true][3:]) / vsc
-            res.case("mmae/true_burn_recovered", case, e_true <= 10 * vtol, nontrivial=True,
+            res.case("mmae/true_burn_recovered", case, e_true <= vtol, nontrivial=True,
                      signature=f"C20/mmae/{solver}/true_burn", observed={"dv": dv[k_true + 1], "err_rel": e_true},
                      expected=post[3:] - pre[k_true][3:], item=item)
             for k, t_k in enumerate(times):
@@ -890,9 +890,9 @@ def _run_mmae(res, item):
                     ep = _maxabs(pr, tgt) / a
                 except ValueError:
                     ep = float("inf")
-                res.case("mmae/hypothesis_reaches_observation", {**case, "k": k, "gap": gaps[k]}, ep <= 10 * ptol,
+                res.case("mmae/hypothesis_reaches_observation", {**case, "k": k, "gap": gaps[k]}, ep <= ptol,
                          nontrivial=gaps[k] > 0.5, signature=f"C20/mmae/{solver}/arrival/" + ("long" if gaps[k] > 0.5 else "short"),
-                         observed={"dv": dv[k + 1], "arrive_err_rel": ep}, expected={"tol_rel": 10 * ptol}, item=item)
+                         observed={"dv": dv[k + 1], "arrive_err_rel": ep}, expected={"tol_rel": ptol}, item=item)
             res.observe(dv)
     # _generateHypothesisManeuvers: last radar observation wins; optical-only falls back to the filter estimate
     t_obs = float(now)
